@@ -156,7 +156,7 @@ def tree_snap(t):
 
 def aut_snap(a):
     return ({k: (n.nid, n.qnum, list(n.eids[0]), list(n.eids[1])) for k, n in a.nodes.items()},
-            {k: (e.eid, list(e.nids), e.opics if not callable(e.opics) else id(e.opics), e.active if not callable(e.active) else id(e.active))
+            {k: (e.eid, list(e.nids), [tuple(t) for t in e.opics] if not callable(e.opics) else id(e.opics), e.active if not callable(e.active) else id(e.active))
              for k, e in a.edges.items()}, list(a.nid_terminal))
 
 
